@@ -40,6 +40,10 @@ type Property struct {
 	// Assumptions recorded in the evidence file.
 	Assumptions []string
 	Rule        string
+	// RequiredSites lists hook sites in /repo that every batch of this check
+	// must reach; a site that never fires means a hooked line was removed or
+	// moved (hook mismatch, exit 2), not that the property holds.
+	RequiredSites []string
 	// Level is the evidence level (default exploration).
 	Level string
 	// NotInjected lists fault kinds deliberately not injected.
